@@ -574,6 +574,34 @@ def t1_typestate(chk):
     compile_ts.ts_rule(chk, 'C13.T1', ['nowrite-switch'])
 
 
+
+def r12_success_means_renamed(chk, rule='C13.R12'):
+    """A normal return of putData means the full text is on disk under the module's name: every path from the entry
+    to a normal exit passes through the rename onto the destination - except the dry-run return."""
+    chk.doc(rule, 'file writers: every non-exceptional path through putData runs through os.rename(<temp>, <destination>) '
+                  'unless it leaves through the `if dryRun` return; no other early return ("unchanged", "up to date") '
+                  'may report success without storing')
+    for rel, cname in WRITERS:
+        owner, fn, mod, cfg, by = analyse_writer(chk, rel, cname)
+        rn = by.get('os.rename', []) + by.get('os.replace', [])
+        guards = [n for n in cfg.nodes if n.kind == 'test' and _key_is(n.expr, 'dryRun')]
+        if not rn or not guards:
+            chk.ob(rule, '%s.putData/rename-before-success' % cname, False, where(mod, fn),
+                   'no rename / no dry-run test found')
+            continue
+        rn_nodes = set(cfg.node_of(common.stmt_of(c)) for c in rn)
+        g = guards[0]
+        dry = cfg.reach([m for m, l in g.succ if l == 'T'], skip_labels=('exc',))
+        # normal-exit paths that avoid the rename and do not go through the dry-run branch
+        avoid = set(rn_nodes) | set(m for m, l in g.succ if l == 'T')
+        reach = cfg.reach(cfg.entry, avoid=avoid)
+        exits = [p for p, l in cfg.exit.pred if p in reach and p not in dry]
+        chk.ob(rule, '%s.putData/rename-before-success' % cname, not exits, where(mod, fn),
+               'putData can return normally without having renamed the new file into place (from line(s) %s)'
+               % sorted(set(p.lineno for p in exits if p.lineno)))
+    chk.floor(rule, 2, 'two file writers')
+
+
 RULES = [r1_dryrun, r2_typestate, r3_complete_write, r4_cleanup, r5_compile_stage, r6_siblings, r7_callback_writer, r8_argument_agreement,
          r9_failure_after_rename_leaves_no_file, r10_wellformedness,
-         r11_guard_polarity_and_name, t1_typestate]
+         r11_guard_polarity_and_name, t1_typestate, r12_success_means_renamed]
